@@ -151,3 +151,98 @@ def line_cubic_joint(c, order):
     c.ensures('tangent-continuous-at-the-cubic', ops.And(ops.eq(E[3] - E[2], m1 * w), ops.lt(0, m1)))
     for i, z in enumerate(E):
         c.ensures('control-point-%d-within-4a/3-of-the-corner' % i, ops.le(9 * ops.norm2(z - q), 16 * a * a))
+
+
+# ------------------------------------------------------------------ the list surgery of smoothed_path
+# smoothed_joint enters through its call-site contract (proved above for line/line, thorough tier
+# for line/cubic): it returns (trimmed seg0, [elbow], trimmed seg1) with
+#   trimmed seg0 starts where seg0 started, ends where the elbow starts,
+#   trimmed seg1 starts where the elbow ends, ends where seg1 ended.
+# The joint classification (already smooth / cusp / to be smoothed) enters as an arbitrary
+# pattern: unit_tangent returns abstract values and isclose answers by the pattern.
+
+JOINT_PATTERNS = [('open', 'LL', 'k'), ('open', 'LLL', 'kk'), ('open', 'LLL', 'sk'), ('open', 'LLL', 'kc'), ('closed', 'LLL', 'kkk'),
+                  ('closed', 'LLL', 'skk'), ('closed', 'LLL', 'kks'), ('closed', 'LLLL', 'kskk'), ('closed', 'LLL', 'ckk'), ('closed', 'LL', 'kk')]
+
+
+@contract('C20', 'smoothing.smoothed_path',
+          params=[{'closed': cl == 'closed', 'n': len(k), 'pattern': p, '_no_bounded': True} for cl, k, p in JOINT_PATTERNS], level='per-shape')
+def smoothed_path_list_surgery(c, closed, n, pattern):
+    """pattern[i] classifies the joint after segment i (for a closed path the last one is the
+    closing joint): k = kink to be smoothed, s = already smooth, c = cusp (left alone)"""
+    from contracts.c09 import _polyline
+    from pyvc import sym
+    path, segs, V = _polyline(c, n, closed)
+    if not closed:
+        c.assume(ops.ne(V[0], V[n]))
+    joints = n if closed else n - 1
+    assert len(pattern) == joints
+    tang = {}       # id(segment object) -> (tangent at 0, tangent at 1)
+    made = []       # segments created by the smoothed_joint contract
+    calls = []
+
+    def tangents(seg):
+        if id(seg) not in tang:
+            k = len(tang)
+            tang[id(seg)] = (seg, c.cplx('ut0_%d' % k), c.cplx('ut1_%d' % k))
+        return tang[id(seg)]
+
+    def unit_tangent(ip, f, args, kwargs):
+        seg, t = args[0], args[1]
+        _, u0, u1 = tangents(seg)
+        return u0 if t == 0 else u1
+    for cls in ('Line', 'CubicBezier'):
+        c.ip.summaries['path.%s.unit_tangent' % cls] = unit_tangent
+
+    # which original joint a pair of segments belongs to: through the end point of seg0
+    def joint_of(seg0):
+        e = c.get(seg0, 'end')
+        for i in range(n):
+            if ops.known_equal(e, V[i + 1]) if hasattr(ops, 'known_equal') else (sym.eq(e, V[i + 1]) is True):
+                return i
+        raise AssertionError("joint not identified")
+
+    state = {}
+
+    def isclose(ip, f, args, kwargs):
+        a, b = args[0], args[1]
+        # find the segments the two tangents belong to
+        for key, (seg, u0, u1) in tang.items():
+            if a is u1:
+                state['joint'] = joint_of(seg)
+                return pattern[state['joint']] == 's'
+        # second question of the same joint: isclose(-ut0, ut1)
+        return pattern[state['joint']] == 'c'
+    c.ip.summaries['misctools.isclose'] = isclose
+
+    def smoothed_joint(ip, f, args, kwargs):
+        seg0, seg1 = args[0], args[1]
+        k = len(calls)
+        A, B = c.cplx('A%d' % k), c.cplx('B%d' % k)
+        ns0 = c.new('path.Line', c.get(seg0, 'start'), A)
+        elbow = c.new('path.CubicBezier', A, c.cplx('K%d' % k), c.cplx('M%d' % k), B)
+        ns1 = c.new('path.Line', B, c.get(seg1, 'end'))
+        calls.append((seg0, seg1, ns0, elbow, ns1))
+        made.extend([ns0, elbow, ns1])
+        return (ns0, [elbow], ns1)
+    c.ip.summaries['smoothing.smoothed_joint'] = smoothed_joint
+    out = c.call('smoothing.smoothed_path', path, ignore_unfixable_kinks=True)
+    res = list(c.items(out))
+    nk = sum(1 for ch in pattern if ch == 'k')
+    c.ensures('one-elbow-per-smoothed-joint', len(res) == n + nk and len(calls) == nk)
+    for i in range(len(res) - 1):
+        c.ensures('continuous-at-joint-%d' % i, ops.eq(c.get(res[i], 'end'), c.get(res[i + 1], 'start')))
+    if closed:
+        c.ensures('stays-closed', ops.eq(c.get(res[-1], 'end'), c.get(res[0], 'start')))
+    else:
+        c.ensures('same-end-points', ops.And(ops.eq(c.get(res[0], 'start'), V[0]), ops.eq(c.get(res[-1], 'end'), V[n])))
+    # every smoothed joint got its elbow between the trimmed neighbours, in path order
+    for (seg0, seg1, ns0, elbow, ns1) in calls:
+        i = [k for k, x in enumerate(res) if x is elbow]
+        c.ensures('elbow-is-in-the-result-once', len(i) == 1)
+    # segments next to no smoothed joint are the original objects
+    for i in range(n):
+        before = pattern[(i - 1) % joints] if (closed or i > 0) else 's'
+        after = pattern[i] if i < joints else 's'
+        if before != 'k' and after != 'k':
+            c.ensures('segment-%d-untouched' % i, any(x is segs[i] for x in res))
